@@ -8,8 +8,8 @@ import (
 	"github.com/markusressel/fan2go/internal/zzv"
 )
 
-//zzv:bound U1 = the real (*DefaultFanController).Run start-up (context already cancelled, so the actors only restore) on a hwmon / file fan with RPM-curve data and a PWM map in the store (map contents symbolic, 2 entries): exactly one PWM write happens in the whole run (the restore write), the controller's PWM map is the stored one, nothing is written to the store
-//zzv:bound U2 = same with a pwmMap in the fan's configuration and any store content for the map: the controller's PWM map is the configured one and no sweep happens (one write)
+//zzv:bound U1 = the real (*DefaultFanController).Run start-up (context already cancelled, so the actors only restore) on a hwmon / file fan with RPM-curve data and a PWM map in the store (map contents symbolic, 2 entries): at most a handful of PWM writes happen in the whole run (the restore), the controller's PWM map is the stored one, nothing is written to the store
+//zzv:bound U2 = same with a pwmMap in the fan's configuration and any store content for the map: the controller's PWM map is the configured one and no sweep happens
 //zzv:bound U4 = the stored entries are deleted through the persistence interface the reset/init commands use (DeleteFanPwmData + DeleteFanPwmMap) and the next start then analyses the fan again (more than 200 PWM writes: the 255..0 sweep); a second start after that reuses what the first stored (start -> start history)
 //zzv:outside cobra wiring of `fan reset` / `fan init` (cmd/fan imports the CLI stack; only their two delete calls are modelled); the real bbolt store (C14); U3, the README promise that configured minPwm+maxPwm skip the RPM-curve measurement, is a known finding
 //zzv:stub persistence is an in-memory implementation of the Persistence interface; oklog/run.Group.Run sequentialised; time.Sleep no-op
@@ -35,14 +35,11 @@ func zzStartEnv(kind int, configuredMap bool) (*zzEnv, *zzMemPersistence) {
 	return e, mem
 }
 
-// zzRestoreWrites: PWM writes of the final restore: the original value, plus 255 when the fan has no
-// control mode to hand back (file fans)
-func zzRestoreWrites(kind int) int {
-	if kind == zzKindHwmon {
-		return 1
-	}
-	return 2
-}
+// zzFewWrites: the only PWM writes of a start that goes straight to regulation and is cancelled at
+// once are those of the final restore (one or two today). Anything above this small number is an
+// analysis (the sweep alone is 256 writes, a measurement at least two per distinct value); the bound
+// is deliberately loose so that a change of the restore routine is not reported here.
+const zzFewWrites = 4
 
 func zzStart(e *zzEnv, mem *zzMemPersistence) error {
 	e.curve = &zzCurve{id: "zzcurve", v: 100}
@@ -67,7 +64,7 @@ func ZZ_C15_U1_StoredDataReused() {
 	err := zzStart(e, mem)
 	zzv.Record("pwmWrites", zzv.FileWrites(e.pwmPath))
 	zzv.Assert(err == nil, "U1.start_succeeds")
-	zzv.Assert(zzv.FileWrites(e.pwmPath) == zzRestoreWrites(kind), "U1.no_pwm_write_before_regulation")
+	zzv.Assert(zzv.FileWrites(e.pwmPath) <= zzFewWrites, "U1.no_pwm_write_before_regulation")
 	zzv.Assert(len(e.c.pwmMap) == 2, "U1.stored_map_is_used_size")
 	zzv.Assert(zzv.And(e.c.pwmMap[k1] == o1, e.c.pwmMap[k2] == o2), "U1.stored_map_is_used")
 	zzv.Assert(mem.saves == 0, "U1.nothing_measured_again")
@@ -83,7 +80,7 @@ func ZZ_C15_U2_ConfiguredMapWins() {
 	err := zzStart(e, mem)
 	zzv.Record("pwmWrites", zzv.FileWrites(e.pwmPath))
 	zzv.Assert(err == nil, "U2.start_succeeds")
-	zzv.Assert(zzv.FileWrites(e.pwmPath) == zzRestoreWrites(kind), "U2.no_sweep_with_configured_map")
+	zzv.Assert(zzv.FileWrites(e.pwmPath) <= zzFewWrites, "U2.no_sweep_with_configured_map")
 	zzv.Assert(zzv.And(len(e.c.pwmMap) == 3, e.c.pwmMap[128] == 128), "U2.configured_map_is_used")
 }
 
@@ -107,7 +104,7 @@ func ZZ_C15_U4_ResetThenAnalyseOnce() {
 	err = zzStart(e, mem)
 	zzv.Record("pwmWritesSecondStart", zzv.FileWrites(e.pwmPath))
 	zzv.Assert(err == nil, "U4.second_start_succeeds")
-	zzv.Assert(zzv.FileWrites(e.pwmPath) == first+zzRestoreWrites(kind), "U4.second_start_does_not_analyse")
+	zzv.Assert(zzv.FileWrites(e.pwmPath) <= first+zzFewWrites, "U4.second_start_does_not_analyse")
 }
 
 // U3 (README: "use the minPwm and maxPwm fan config options ... That way the initialization phase
@@ -121,5 +118,7 @@ func ZZ_C15_U3_ConfiguredLimitsSkipMeasurement() {
 	err := zzStart(e, mem)
 	zzv.Record("pwmWrites", zzv.FileWrites(e.pwmPath))
 	zzv.Assert(err == nil, "U3.start_succeeds")
-	zzv.Assert(zzv.FileWrites(e.pwmPath) == zzRestoreWrites(zzKindHwmon), "U3.no_rpm_curve_measurement_with_configured_limits")
+	// the configured map has three values, so the measurement is short: the store tells (nothing is
+	// saved unless something was measured)
+	zzv.Assert(zzv.And(mem.saves == 0, zzv.FileWrites(e.pwmPath) <= zzFewWrites), "U3.no_rpm_curve_measurement_with_configured_limits")
 }
